@@ -382,9 +382,7 @@ func (g *Gen) loadLeaf(st *State, a string, t types.Type) Term {
 
 func (g *Gen) storeLeaf(st *State, a string, t types.Type, v string) {
 	s := g.sortOf(t)
-	key := g.heapKeyFor(s)
-	h := g.heap(st, key, s)
-	g.setHeap(st, key, Term{sto(h.S, a, v), h.Sort})
+	g.writeCell(st, g.heapKeyFor(s), s, a, v)
 }
 
 // load reads a value of type t from the cell at address a (decomposing structs).
